@@ -61,6 +61,11 @@ def explore(ctx):
     matcases, matmeta = [], []
     for i in range(ctx.budget(90, 700)):
         desc = gen_component_font(rng, anchors=True, max_depth=4)
+        if i % 5 in (3, 4):
+            # a glyph that has anchors and an advance but neither contours nor components (a blank mark base / spacing glyph):
+            # its anchors and advance are transformed and propagated like anyone's
+            desc["glyphs"].append({"name": "blankbase", "unicodes": [], "width": Fr(360), "contours": [], "components": [],
+                                   "anchors": [("top", Fr(180), Fr(300)), ("bottom", Fr(180), Fr(-20))]})
         names = [g["name"] for g in desc["glyphs"]]
         lib = rng.choice(["ufoLib2", "defcon"])
         which = ["decompose", "decompose_transformed", "flatten", "transform", "propagate"][i % 5]
